@@ -151,8 +151,9 @@ def explore(ctx, scale=1.0):
         # the boundary of the status arithmetic, on every run: message counts and unparseable files whose sum (or capped sum)
         # lands on / next to a multiple of 256, in both file orders
         U, OK = ("unparseable", 0), ("valid", 0)
+        VER = ("versioned", 0)      # valid without a version, one message under the CLI's default version: the verdict must use the version
         plans = [[("invalid", 255), U, OK], [U, ("invalid", 254), U], [("invalid", 256)], [("invalid", 300), U], [("invalid", 253), U, U, U],
-                 [("invalid", 128), ("invalid", 128)], [("invalid", 255), OK]]
+                 [("invalid", 128), ("invalid", 128)], [("invalid", 255), OK], [VER], [OK, VER, VER]]
         if ctx.thorough:
             plans += [[U] * 256, [U] * 255 + [("invalid", 1)], [("invalid", 512)], [("invalid", 200), ("invalid", 56), OK]]
         for i in range(len(plans) + runs):
@@ -164,6 +165,9 @@ def explore(ctx, scale=1.0):
                 fn = os.path.join(d_run, f"m{j}.map")
                 if kind == "valid":
                     txt = 'MAP\n  NAME "ok"\nEND\n'
+                elif kind == "versioned":
+                    txt = rng.choice(['MAP\n  NAME "v"\n  LAYER\n    NAME "l"\n    TYPE POINT\n    CLASS\n      COLOR 1 2 3\n    END\n  END\nEND\n',
+                                      'MAP\n  NAME "v"\n  WEB\n    LOG "x"\n  END\nEND\n'])
                 elif kind == "invalid":
                     if k is None:
                         k = rng.choice([1, 2, 3, 7, 255, 256, 257, 300]) if rng.random() < .5 else rng.randint(1, 40)
